@@ -205,15 +205,16 @@ Qed.
 (* every world operation except remove_property_layer("empty") keeps the invariants of the embedded state *)
 Theorem wstep_inv w o : no_delempty o = true -> Inv12 (w_st w) -> Inv12 (w_st (fst (wstep w o))).
 Proof.
-  intros Hn I. destruct o as [o'|mech src root|s label ci|s label|s ci name v|s|s]; try discriminate; cbn [wstep].
-  - destruct o'; try exact I; try (destruct (fixed_guard w s label); [exact I|]); apply inner_case; exact I.
+  intros Hn I. destruct o as [o'|mech src root|s label ci|s label|s ci name v|s|s|s ci key cj]; try discriminate; cbn [wstep].
+  - destruct o'; try exact I; try (destruct (fixed_guard w s label); [exact I|]);
+      try (destruct (xconn_target w s label key)); apply inner_case; exact I.
   - apply wcopy_inv. exact I.
   - destruct (fixed_guard w s label); [exact I|].
     pose proof (inner_step_inv w (Move s label ci) I) as J.
     destruct (inner_step w (Move s label ci)) as [[w' news] r]. cbn [fst] in *.
     destruct (assoc label (tab_of w s)); exact J.
   - destruct (assoc label (tab_of w s)) as [a|]; [|exact I]. destruct (model_of w s) as [m|]; [|exact I].
-    destruct (memn a (w_fixed w) || negb (memn a (nth m (w_models w) []))); [exact I|].
+    destruct (negb (memn a (nth m (w_models w) []))); [exact I|].
     pose proof (inner_step_inv w (Leave s label) I) as J.
     destruct (inner_step w (Leave s label)) as [[w' news] r]. exact J.
   - destruct (side_of w s) as [sd|]; [|exact I]. destruct (ci <? 0); [exact I|].
@@ -221,6 +222,9 @@ Proof.
   - destruct (nth_side (st_sets (w_st w)) s) as [ss|] eqn:En; [|exact I].
     destruct (nth (Z.to_nat s) (w_setpin w) true); [exact I|]. cbn [fst with_st w_st].
     apply (forget_inv _ _ ss I En).
+  - destruct (side_of w s) as [sd|]; [|exact I]. destruct ((ci <? 0) || (cj <? 0) || (key <? HANDMADE)); [exact I|].
+    destruct (nth_error (s_cells (sd_space sd)) (Z.to_nat ci)); [|exact I].
+    destruct (nth_error (s_cells (sd_space sd)) (Z.to_nat cj)); exact I.
 Qed.
 
 Theorem wrun_inv w ops : forallb no_delempty ops = true -> Inv12 (w_st w) -> Inv12 (w_st (wrun_states w ops)).
@@ -363,7 +367,7 @@ Proof.
   pose proof (step_labels (w_st w) o) as [Hlen _]. pose proof (step_sides_length (w_st w) o Hc) as Hsl.
   unfold inner_step in *. destruct (step (w_st w) o) as [st' r]. cbn [fst] in *.
   unfold set_pins, register in *. unfold model_of, with_st. cbn [w_smodel w_st].
-  set (news := if is_set_op o then [] else map snd (skipn (length (tab_of w (op_side o))) (tab_of {| w_st := st'; w_models := w_models w; w_grid := w_grid w; w_smodel := w_smodel w; w_amodel := w_amodel w; w_fixed := w_fixed w; w_user := w_user w; w_setpin := w_setpin w |} (op_side o)))) in *.
+  set (news := if is_set_op o then [] else map snd (skipn (length (tab_of w (op_side o))) (tab_of {| w_st := st'; w_models := w_models w; w_grid := w_grid w; w_smodel := w_smodel w; w_amodel := w_amodel w; w_fixed := w_fixed w; w_user := w_user w; w_setpin := w_setpin w; w_xconn := w_xconn w; w_ghost := w_ghost w |} (op_side o)))) in *.
   assert (Hnews : forall a, In a news -> (a < length (h_agents (st_heap st')))%nat).
   { intros a Ha. unfold news in Ha. destruct (is_set_op o); [destruct Ha|].
     apply in_map_iff in Ha. destruct Ha as [la [<- Hla]]. apply in_skipn' in Hla. unfold tab_of, side_of in Hla.
@@ -394,7 +398,7 @@ Proof.
                   w_models := w_models w ++ [models']; w_grid := w_grid w ++ [length (st_sides (w_st w))];
                   w_smodel := w_smodel w ++ [length (w_models w)];
                   w_amodel := w_amodel w ++ map (fun la => (snd la, length (w_models w))) tab2;
-                  w_fixed := fixed'; w_user := user'; w_setpin := w_setpin w |}).
+                  w_fixed := fixed'; w_user := user'; w_setpin := w_setpin w; w_xconn := w_xconn w; w_ghost := w_ghost w |}).
   { intros h2 tab2 newreg Hl Jf models' fixed' user'. constructor; cbn [w_grid w_models w_smodel w_st w_amodel st_sides st_heap].
     - rewrite !app_length. simpl. rewrite (ws_grid _ S). reflexivity.
     - rewrite !app_length. simpl. rewrite (ws_smodel _ S). reflexivity.
@@ -418,15 +422,16 @@ Qed.
 
 Theorem wstep_ws w o : no_delempty o = true -> Inv12 (w_st w) -> WS w -> WS (fst (wstep w o)).
 Proof.
-  intros Hn I S. destruct o as [o'|mech src root|s label ci|s label|s ci name v|s|s]; try discriminate; cbn [wstep].
-  - destruct o'; try exact S; try (destruct (fixed_guard w s label); [exact S|]); apply inner_case_ws; try reflexivity; assumption.
+  intros Hn I S. destruct o as [o'|mech src root|s label ci|s label|s ci name v|s|s|s ci key cj]; try discriminate; cbn [wstep].
+  - destruct o'; try exact S; try (destruct (fixed_guard w s label); [exact S|]);
+      try (destruct (xconn_target w s label key)); apply inner_case_ws; try reflexivity; assumption.
   - apply wcopy_ws; assumption.
   - destruct (fixed_guard w s label); [exact S|].
     pose proof (inner_step_ws w (Move s label ci) eq_refl I S) as J.
     destruct (inner_step w (Move s label ci)) as [[w' news] r]. cbn [fst] in *.
     destruct (assoc label (tab_of w s)); [exact J|]. destruct J. constructor; assumption.
   - destruct (assoc label (tab_of w s)) as [a|]; [|exact S]. destruct (model_of w s) as [m|]; [|exact S].
-    destruct (memn a (w_fixed w) || negb (memn a (nth m (w_models w) []))); [exact S|].
+    destruct (negb (memn a (nth m (w_models w) []))); [exact S|].
     pose proof (inner_step_ws w (Leave s label) eq_refl I S) as J.
     destruct (inner_step w (Leave s label)) as [[w' news] r]. cbn [fst] in *. destruct J as [J1 J2 J3].
     constructor; cbn [w_grid w_models w_smodel w_st w_amodel]; [rewrite upd_length; exact J1|exact J2|exact J3].
@@ -434,6 +439,9 @@ Proof.
     destruct (nth_error (s_cells (sd_space sd)) (Z.to_nat ci)); [|exact S]. destruct S. constructor; assumption.
   - destruct (nth_side (st_sets (w_st w)) s) as [ss|]; [|exact S].
     destruct (nth (Z.to_nat s) (w_setpin w) true); [exact S|]. destruct S. constructor; assumption.
+  - destruct (side_of w s) as [sd|]; [|exact S]. destruct ((ci <? 0) || (cj <? 0) || (key <? HANDMADE)); [exact S|].
+    destruct (nth_error (s_cells (sd_space sd)) (Z.to_nat ci)); [|exact S].
+    destruct (nth_error (s_cells (sd_space sd)) (Z.to_nat cj)); [|exact S]. destruct S. constructor; assumption.
 Qed.
 
 Theorem world_reachable c ops : good_case c -> forallb no_delempty ops = true ->
